@@ -24,6 +24,7 @@ var registry = map[string]checkFn{
 	"C13": checkC13,
 	"C14": checkC14,
 	"C16": checkC16,
+	"C17": checkC17,
 	"C18": checkC18,
 	"C19": checkC19,
 	"C22": checkC22,
